@@ -149,6 +149,109 @@ def expected_file(fsx):
     return ["r", "s:" + fsx[1], ["r", s_(mod[1]), attrs_of(mod[4])], attrs_of(child(fsx, "attrs")), Conv().convert(child(fsx, "defs")[1:])]
 
 
+# ------------------------------------------------------------------------------------------------ the AST dump as input of the Coq converter model
+def hx_(x):
+    return x.encode().hex() or "-"
+
+
+def t_attrs(sx):
+    out = [str(len(sx) - 1)]
+    for a in sx[1:]:
+        out += [hx_(a[1]), str(len(a[2]))] + list(a[2])
+    return out
+
+
+def t_link(l):
+    return hx_(l[3]) if l[1] == "ok" else hx_(l[2])
+
+
+def t_msg(parts):
+    out = [str(len(parts))]
+    for c in parts:
+        out += ["t", c[1]] if c[0] == "t" else ["l", t_link(c)]
+    return out
+
+
+def t_doc(doc):
+    if doc is None or doc[1] == "-":
+        return ["-"]
+    ov = child(doc, "overview")
+    out = ["doc"] + t_msg([] if ov[1] == "-" else ov[2:])
+    see = child(doc, "see")[1:]
+    out += [str(len(see))] + [t_link(x) for x in see]
+    ps = child(doc, "params")[1:]
+    out.append(str(len(ps)))
+    for p in ps:
+        out += [hx_(p[1])] + t_msg(p[3:])
+    rs = child(doc, "returns")[1:]
+    out.append(str(len(rs)))
+    for r in rs:
+        out += ["-" if r[1] == "-" else hx_(r[1])] + t_msg(r[3:])
+    return out
+
+
+def t_tref(tr):
+    tgt = tr[4]
+    k = tgt[0]
+    if k == "named":
+        t = ["n", hx_(tgt[2])]
+    elif k == "prim":
+        t = ["p", hx_(tgt[1])]
+    elif k == "seq":
+        t = ["q"] + t_tref(tgt[1])
+    elif k in ("dict", "res"):
+        t = ["d" if k == "dict" else "r"] + t_tref(tgt[1]) + t_tref(tgt[2])
+    else:
+        raise ValueError("unpatched reference in an accepted program")
+    return t + [tr[2]] + t_attrs(tr[3])
+
+
+def t_tag(x):
+    return "-" if x == "-" else x.split("@")[0]
+
+
+def t_field(f):
+    return [hx_(f[1])] + t_attrs(f[5]) + t_doc(f[6]) + [t_tag(f[3])] + t_tref(f[7])
+
+
+def t_param(p):
+    return [hx_(p[1])] + t_attrs(p[6]) + [t_tag(p[3]), p[4]] + t_tref(p[7])
+
+
+def t_def(d):
+    k = d[0]
+    head = [hx_(d[1])] + t_attrs(child(d, "attrs")) + t_doc(child(d, "doc"))
+    if k == "struct":
+        fs = child(d, "fields")[1:]
+        return ["struct"] + head + [d[3], str(len(fs))] + [x for f in fs for x in t_field(f)]
+    if k == "interface":
+        bases = child(d, "bases")[1:]
+        ops = child(d, "ops")[1:]
+        out = ["iface"] + head + [str(len(bases))] + [hx_(b[3][2]) for b in bases] + [str(len(ops))]
+        for o in ops:
+            ps, rs = child(o, "params")[1:], child(o, "rets")[1:]
+            out += [hx_(o[1])] + t_attrs(child(o, "attrs")) + t_doc(child(o, "doc")) + [o[3], str(len(ps))] + [x for p in ps for x in t_param(p)] + [str(len(rs))] + [x for p in rs for x in t_param(p)]
+        return out
+    if k == "enum":
+        und = child(d, "under")
+        ens = child(d, "enumerators")[1:]
+        out = ["enum"] + head + [d[3], d[4], "-" if und[1] == "-" else hx_(und[4][1] + ("?" if und[2] == "1" else "")), str(len(ens))]
+        for e in ens:
+            fl = child(e, "fields")[1:]
+            fl = [] if fl == ["-"] else fl
+            out += [hx_(e[1])] + t_attrs(child(e, "attrs")) + t_doc(child(e, "doc")) + [e[3], str(len(fl))] + [x for f in fl for x in t_field(f)]
+        return out
+    if k == "custom":
+        return ["custom"] + head
+    return ["alias"] + head + t_tref(d[-1])
+
+
+def model_file_line(fsx):
+    mod = child(fsx, "module")
+    defs = child(fsx, "defs")[1:]
+    return "conv " + " ".join([fsx[1] or "-", hx_(mod[1])] + t_attrs(mod[4]) + t_attrs(child(fsx, "attrs")) + [str(len(defs))] + [x for d in defs for x in t_def(d)])
+
+
 def first_diff(a, b, path="$"):
     if isinstance(a, list) and isinstance(b, list):
         for i, (x, y) in enumerate(zip(a, b)):
@@ -246,7 +349,7 @@ def run(ck):
     o = core.run_lines([core.HARNESS, "run"], lines, chunk=25, timeout=300, env=env)
     reqs, idx = [], []
     ck.stream("requests", description="real slicec binary with capturing fake generators on generated valid programs (every definition kind, anonymous types to depth 3, aliases, doc comments with links/@param/@returns/@see, "
-              "extreme enumerator values and tags) x source/reference splits x generator argument lists; the captured stdin is decoded by the schema-driven model decoder and compared with the AST dump")
+              "extreme enumerator values and tags) x source/reference splits x generator argument lists; the captured stdin is decoded by the schema-driven model decoder and every transmitted file is compared with what the Coq converter model (Request/Convert.v) makes of the compiled file (AST dump), and with the check's own reading of the property")
     for i, ((files, gens, args), line, oo) in enumerate(zip(metas, lines, o)):
         ck.count("requests", line, kind="%d files" % len(files))
         parts = oo.split(" || ")
@@ -266,6 +369,7 @@ def run(ck):
         reqs.append("req " + stdins[0])
         idx.append((i, parts[5], stdins))
     m = core.run_model("request", reqs, chunk=200)
+    conv_jobs = []
     for (i, dump, stdins), rl, mo in zip(idx, reqs, m):
         files, gens, args = metas[i]
         case = "\n--\n".join("[%s %s]\n%s" % (k, nm, t) for k, nm, t in files)
@@ -291,12 +395,40 @@ def run(ck):
         dumped = [x.split(" ", 1) for x in dump.split(" ;; ")] if dump else []
         exp_src = ["q"] + [expected_file(parse_sexp(sx_)[0]) for k, sx_ in dumped if k == "S"]
         exp_ref = ["q"] + [expected_file(parse_sexp(sx_)[0]) for k, sx_ in dumped if k == "R"]
+        # the same files through the Coq converter model (Request/Convert.v); compared below, after one batched run of the model
+        try:
+            conv_jobs.append((case, [k for k, _ in dumped], [model_file_line(parse_sexp(sx_)[0]) for _, sx_ in dumped], req))
+        except (ValueError, IndexError, TypeError) as e:
+            ck.violation("requests", "dump-not-convertible", case, "an AST dump the converter model can read", repr(e), kind="correspondence")
         exp_args = ["d"] + [[s_(k.strip()), s_(v.strip())] for k, v in args]
         exp = ["req", s_("generateCode"), exp_src, exp_ref, exp_args]
         d = first_diff(exp, req)
         if d:
             ck.violation("requests", "content-differs", case, d, "(decoded request)", detail=d)
-    ck.samples.append({"stream": "requests", "case": lines[0][:300], "impl": o[0][:300], "model": m[0][:300] if m else None})
+    # every transmitted file equals what the converter model makes of the compiled file
+    flat = [l for _, _, ls, _ in conv_jobs for l in ls]
+    ck.extra["files_compared_with_converter_model"] = len(flat)
+    if len(flat) < n // 2:
+        ck.violation("requests", "converter-model-not-exercised", "%d files of %d programs" % (len(flat), n), "most programs reach the comparison", str(len(flat)), kind="correspondence")
+    mc = core.run_model("request", flat, chunk=200)
+    pos = 0
+    for case, kinds, ls, req in conv_jobs:
+        outs = mc[pos:pos + len(ls)]
+        pos += len(ls)
+        got = {"S": list(req[2][1:]), "R": list(req[3][1:])}
+        for k, out, line in zip(kinds, outs, ls):
+            if not out.startswith("("):
+                ck.violation("requests", "converter-model-failed", case, "a SliceFile value", out[:200], detail=line[:300], kind="correspondence")
+                break
+            want = parse_sexp(out)[0]
+            have = got[k].pop(0) if got[k] else None
+            d = first_diff(want, have) if have is not None else "file missing from the request"
+            if d:
+                ck.violation("requests", "content-differs-from-converter-model", case, d, "(decoded request)", detail=d)
+                break
+    ck.samples.append({"stream": "requests", "case": lines[0][:300], "impl": o[0][:300], "model": m[0][:300] if m else None, "converter_model_input": flat[0][:300] if flat else None,
+                       "converter_model_output": mc[0][:300] if flat else None})
     ck.extra["rule"] = "%d generated valid programs (1-3 files, random source/reference split, 0-3 generator arguments, 1-2 generators); distinct by case text" % n
-    ck.partial.append("the expected content is computed from the AST dump by the check's own reading of the property (vlib/checks/c08.py::Conv), not by a Coq model of slice_file_converter.rs; the Coq side decides decodability, exact consumption and id well-foundedness")
+    ck.partial.append("the converter model (Request/Convert.v) is fed the implementation's own AST dump (harness/src/dump.rs), so a defect of the AST itself is C02/C03/C16's business; the check's own reading of the property "
+                      "(vlib/checks/c08.py::Conv) is kept as a second oracle; the arguments, the operation name and the source/reference split are compared by the check")
 
